@@ -243,3 +243,9 @@ def r3(ctx):
     # one call per request
     calls = [c for c in idx.calls_in(Q) if text(c.func) == "_create_sec_websocket_key"]
     ctx.ob(f"{Q}:key-generated-in-request-builder", len(calls) == 1, f"{len(calls)} call site(s) in _get_handshake_headers", idx.loc(calls[0]) if calls else "")
+
+
+@rule("R-C10-4", min_instances=6, title="request target = URL path ('/' if empty) + '?' + query (shared with R-C18-1)")
+def r4(ctx):
+    from .c18 import r1 as parse_url_table
+    parse_url_table(ctx)
